@@ -46,6 +46,9 @@
 #include <stdint.h>
 #include <setjmp.h>
 #include <stdarg.h>
+#include <signal.h>
+#include <unistd.h>
+#include <sys/time.h>
 #include "mir.h"
 #include "mir-gen.h"
 
@@ -375,7 +378,31 @@ static void print_bindings (int want_state) {
 static MIR_context_t ctx;
 static int gen_inited;
 static int stop_at_rejection; /* C13_MODE contains 's': a rejected load ends the history */
+
+/* Watchdog (wave 6): every history runs under a CPU-time limit (ITIMER_PROF, C13_HANG_CPU seconds, default 4) and a
+   wall-clock limit (alarm, C13_HANG_WALL, default 60).  When one expires - MIR_link or an accessor loops forever on
+   the tree under test - the line of the history is closed with the token `HANG@<phase>` and the process exits with
+   code 124: the check takes the line as the history's outcome (a disagreement with the model, which terminates on
+   every history) and restarts the harness after it.  A healthy history takes well under 10 ms. */
 static volatile int phase; /* 1 = building a module, 2 = MIR_load_module, 3 = MIR_link */
+static int hang_cpu = 4, hang_wall = 60;
+static volatile int line_open; /* the output line of the current history has not been closed yet */
+static void on_hang (int sig) {
+  static const char *const ph[] = {"idle", "build", "load", "link", "run"};
+  (void) sig;
+  if (!line_open) _exit (125); /* while the context is torn down: reported like a crash there */
+  /* not async-signal-safe in general; the loops this is for spin inside MIR / generated code, not inside stdio */
+  printf (" HANG@%s\n", in_call ? ph[4] : ph[phase >= 0 && phase <= 3 ? phase : 0]);
+  fflush (stdout);
+  _exit (124);
+}
+static void arm_watchdog (void) {
+  struct itimerval it;
+  memset (&it, 0, sizeof (it));
+  it.it_value.tv_sec = hang_cpu;
+  setitimer (ITIMER_PROF, &it, NULL);
+  alarm (hang_wall);
+}
 
 /* returns 0 when the history has to end */
 static int do_op (char *op) {
@@ -532,6 +559,8 @@ static int do_op (char *op) {
 }
 
 static void run_history (char *line) {
+  arm_watchdog ();
+  line_open = 1;
   ctx = MIR_init ();
   gen_inited = 0;
   nmods = 0;
@@ -550,6 +579,7 @@ static void run_history (char *line) {
   }
   printf ("\n");
   fflush (stdout);
+  line_open = 0;
   /* tear the context down; after an error module creation may be half done, in which case
      MIR_finish frees nearly everything and then reports the unfinished module/function: that
      last error is swallowed here */
@@ -574,6 +604,10 @@ int main (void) {
   static char line[1 << 16];
   const char *mode = getenv ("C13_MODE");
   stop_at_rejection = mode != NULL && strchr (mode, 's') != NULL;
+  if (getenv ("C13_HANG_CPU") != NULL && atoi (getenv ("C13_HANG_CPU")) > 0) hang_cpu = atoi (getenv ("C13_HANG_CPU"));
+  if (getenv ("C13_HANG_WALL") != NULL && atoi (getenv ("C13_HANG_WALL")) > 0) hang_wall = atoi (getenv ("C13_HANG_WALL"));
+  signal (SIGPROF, on_hang);
+  signal (SIGALRM, on_hang);
   while (fgets (line, sizeof (line), stdin) != NULL) {
     size_t l = strlen (line);
     if (l > 0 && line[l - 1] == '\n') line[l - 1] = 0;
